@@ -226,3 +226,29 @@ func AddCanonStress(r *rng.R, w *World) {
 	w.AddFeature("canonStress")
 	TagNetPolFeatures(w)
 }
+
+// AddDefaultNamespaceWorkloads adds workloads (and maybe a policy) that live in namespace "default" because their manifests
+// carry no metadata.namespace.
+func AddDefaultNamespaceWorkloads(r *rng.R, w *World, c Cfg) {
+	if w.NsByName("default") == nil {
+		w.Namespaces = append(w.Namespaces, Namespace{Name: "default", HasObj: r.P(0.4), Labels: map[string]string{}})
+	}
+	n := r.Range(1, 2)
+	for i := 0; i < n; i++ {
+		wl := Workload{Ns: "default", Name: fmt.Sprintf("d%d", i), Kind: rng.Pick(r, c.Kinds), Labels: randLabels(r, 0.6), Ports: GenCPorts(r, c), OmitNs: true}
+		if wl.Kind == KOwnedPods {
+			wl.NPods, wl.OwnerKind = 1, KReplicaSet
+		}
+		w.Workloads = append(w.Workloads, wl)
+	}
+	if r.P(0.7) {
+		np := GenNetPol(r, w, c, "default", "npdefault")
+		np.PodSel = *SelFor(r, w.Workloads[len(w.Workloads)-1].Labels)
+		np.OmitNs = r.P(0.5)
+		if len(np.Ingress) == 0 {
+			np.Ingress = []NPRule{{Peers: []NPPeer{{PodSel: &Sel{}}}, Ports: []NPPort{{Port: 80}}}}
+		}
+		w.NetPols = append(w.NetPols, np)
+	}
+	w.AddFeature("defaultNamespaceOmitted")
+}
